@@ -232,7 +232,15 @@ func (v *View) Apply(e *d.Event, strict bool) {
 		// view does not (or no longer) hold is older than that entity's removal
 		if a := m.EntityAction; a != nil {
 			if _, ok := v.Entities[a.EntityId]; ok || !v.HaveState {
-				v.Actions[ActKey{a.EntityId, a.Name}] = actionFromPB(a)
+				// actions carry the client timestamp that orders them (C16): like the
+				// server, a view keeps the later of two actions on one (entity, name),
+				// whichever relay arrives first; equal timestamps replace
+				na := actionFromPB(a)
+				if old, ok := v.Actions[ActKey{a.EntityId, a.Name}]; ok && old.HasTS && na.HasTS &&
+					(na.Sec < old.Sec || na.Sec == old.Sec && na.Nanos < old.Nanos) {
+					break
+				}
+				v.Actions[ActKey{a.EntityId, a.Name}] = na
 			}
 		}
 	case *odalpb.AssetInstanceAddBroadcast:
